@@ -129,7 +129,7 @@ def gen_encode(rng, tier, fixed):
             for a in [1, 2, 3, (1 << (N - 1)) - 1, 1 << (N - 1), rng.getrandbits(N - 2) | 1]:
                 emit(a, e)
         # (vi) random
-        for _ in range(300 if quick else 20000):
+        for _ in range(300 if quick else 150000):
             L = rng.randrange(1, N)
             a = rng.getrandbits(L) | (1 << (L - 1))
             t = rng.choice([rng.randrange(qmin - 4, qmin + p + 4), rng.randrange(qmin - 4, emax1 + 4),
@@ -164,7 +164,7 @@ def float_patterns(rng, name, n):
 
 
 def gen_decode(rng, tier):
-    n = 200 if tier == "quick" else 5000
+    n = 200 if tier == "quick" else 40000
     for name in FMT:
         for b in float_patterns(rng, name, n):
             yield Case(name + ".decode", ["p:%s:%x" % (name, b)])
@@ -181,7 +181,7 @@ def prim_range(ty):
 
 
 def gen_prim(rng, tier):
-    n = 3 if tier == "quick" else 40
+    n = 3 if tier == "quick" else 150
     for ty in list(UNSIGNED) + list(SIGNED):
         lo, hi = prim_range(ty)
         bits = UNSIGNED.get(ty) or SIGNED[ty]
@@ -239,7 +239,7 @@ def gen_int_float(rng, tier, fixed):
         if quick and n > 140 and rng.random() < 0.7:
             continue
         for p in (24, 53):
-            for a in cut_mantissas(rng, n, max(n - p, 0), per=1):
+            for a in cut_mantissas(rng, n, max(n - p, 0), per=1 if quick else 3):
                 if quick and rng.random() < 0.7:
                     continue
                 xs.add(a)
@@ -273,7 +273,7 @@ def gen_int_float(rng, tier, fixed):
         MB, EB = f["MB"], f["EB"]
         W = 1 + EB + MB
         bias = (1 << (EB - 1)) - 1
-        pats = set(float_patterns(rng, ty, 100 if quick else 3000))
+        pats = set(float_patterns(rng, ty, 100 if quick else 20000))
         for s in (0, 1):
             for E in list(range(bias - 3, bias + MB + 4)) + [bias + 63, bias + 64, bias + 127, bias + 128, 1, 0]:
                 for M in [0, 1, 1 << (MB - 1), (1 << MB) - 1, 1 << max(0, min(MB - 1, bias + MB - E)),
@@ -292,7 +292,200 @@ def fixed_from_float():
         src = open("/repo/integer/src/convert.rs").read()
     except OSError:
         return False
-    return "result >>= (-exp) as usize;" not in src
+    return "z < (-exp) as usize" in src
+
+
+# ------------------------------------------------------------------ rationals
+
+def rat_cases(rng, tier):
+    """(num, den) with quotients of 24/25/26, 53/54/55 bits, ties and near ties at the rounding position,
+    the subnormal band and the overflow threshold, non-dyadic denominators"""
+    quick = tier == "quick"
+    out = []
+    dens = [1, 2, 3, 5, 7, 10, 12, 1 << 20, (1 << 20) + 1, 3 << 40, (1 << 64) - 1, (1 << 64) + 13, (1 << 130) + 1, 10 ** 25]
+    for p in (24, 53):
+        for qbits in (p - 1, p, p + 1, p + 2, p + 3):
+            for _ in range(2 if quick else 60):
+                den = rng.choice(dens + [rng.getrandbits(rng.randrange(2, 140)) | 1])
+                for q in cut_mantissas(rng, qbits + 3, 3 + max(qbits - p, 0), per=1):
+                    if quick and rng.random() < 0.75:
+                        continue
+                    # quotient q/8 exactly, plus tiny perturbations of the numerator (non-representable tails)
+                    for delta in (0, 1, -1):
+                        num = q * den + delta
+                        if num > 0:
+                            e = rng.choice([0, 0, 1, -1, 40, -40, 100, -100, -126 - p, -149 - qbits, -1022 - qbits, -1074 - qbits,
+                                            127 - qbits, 128 - qbits, 1023 - qbits, 1024 - qbits, -1074 - qbits - 4, -140 - qbits])
+                            n2, d2 = (num << e, den * 8) if e >= 0 else (num, (den * 8) << -e)
+                            out.append((n2 if rng.random() < 0.7 else -n2, d2))
+    for _ in range(100 if quick else 40000):
+        nb, db = rng.randrange(1, 200), rng.randrange(1, 200)
+        out.append((signed(rng, rng.getrandbits(nb) | 1), rng.getrandbits(db) | 1 << (db - 1)))
+    out += [(0, 1), (1, 1), (-1, 1), (1, 3), (-1, 3), (22, 7), (5, 1), (1 << 40, 1), (1 << 24, 1), ((1 << 24) + 1, 1), (3, 2),
+            (-3, 2), (1, 1 << 149), (1, 1 << 150), (3, 1 << 151), (1, 1 << 1074), (1, 1 << 1075), (3, 1 << 1076),
+            ((1 << 128) - (1 << 103), 1), ((1 << 128) - (1 << 103) - 1, 1), ((1 << 1024) - (1 << 970), 1), (1 << 1024, 3), (1 << 2000, 1),
+            (1, 1 << 2000), (100663301, 4), (33554435, 2), (6248, 5)]
+    return out
+
+
+def gen_ratio(rng, tier, asis_ratio):
+    quick = tier == "quick"
+    for num, den in rat_cases(rng, tier):
+        a = [hx(num), hx(den)]
+        for ty in ("f32", "f64"):
+            yield Case("r.to_" + ty, a)
+            if asis_ratio:
+                yield Case("r.to_%s.asis" % ty, a)
+            yield Case("r.to_%s_fast" % ty, a)
+            if rng.random() < 0.3:
+                yield Case("r.tryto_" + ty, a)
+        if rng.random() < 0.3:
+            yield Case("r.to_int", a)
+    # exact-or-refused conversions of rationals
+    import math
+    for num, den in [(0, 1), (5, 1), (-5, 1), (1, 3), (-1, 3), (7, 2), (255, 1), (256, 1), (-128, 1), (-129, 1), (1 << 64, 1), (1 << 200, 1),
+                     ((1 << 64) - 1, 1), (1, 1)] + [(signed(rng, rng.getrandbits(rng.randrange(1, 140))), rng.choice([1, 1, 1, 3, 4, 10]))
+                                                     for _ in range(20 if quick else 2000)]:
+        if math.gcd(num, den) != 1 and den != 1:
+            continue
+        a = [hx(num), hx(den)]
+        yield Case("r.to.ibig", a); yield Case("r.to.ubig", a); yield Case("r.to_int", a)
+        for ty in list(UNSIGNED) + list(SIGNED):
+            if rng.random() < (0.3 if quick else 1.0):
+                yield Case("r.to", [ty] + a)
+        for ty in ("f32", "f64"):
+            yield Case("r.tryto_" + ty, a)
+    for k in range(0, 70 if quick else 200, 1):
+        for ty in ("f32", "f64"):
+            yield Case("r.tryto_" + ty, [hx(1 << k), "1"])
+            yield Case("r.tryto_" + ty, [hx((1 << k) + 1), hx(1 << rng.randrange(0, 80))])
+            yield Case("r.tryto_" + ty, ["1", hx(1 << (k * 17 % 1100))])
+    for ty in ("f32", "f64"):
+        for b in float_patterns(rng, ty, 60 if quick else 20000):
+            yield Case("r.from_" + ty, ["p:%s:%x" % (ty, b)])
+    yield Case("r.from.ibig", [hx(-12345)])
+    # RBig::to_float
+    modes = ["Zero", "Away", "Up", "Down", "HalfEven", "HalfAway"]
+    for _ in range(150 if quick else 40000):
+        B = rng.choice([2, 10, 10, 16, 3])
+        prec = rng.choice([1, 2, 3, 5, 8, 20])
+        # quotient with `extra` digits beyond the precision and a tie / near tie tail
+        extra = rng.choice([0, 1, 2, 3, 6])
+        den = rng.choice([1, 3, 7, B, B ** 3, 2 * B + 1, rng.getrandbits(40) | 1])
+        head = rng.randrange(B ** (prec - 1), B ** prec)
+        tail = rng.choice([0, B ** extra // 2, B ** extra // 2 - 1, B ** extra // 2 + 1, rng.randrange(0, B ** extra), B ** extra - 1]) if extra else 0
+        num = (head * B ** extra + tail) * den + rng.choice([0, 0, 1, -1, den // 2])
+        if num <= 0:
+            continue
+        sh = rng.choice([0, 0, 3, -3, 20, -20])
+        if sh >= 0:
+            num *= B ** sh
+        else:
+            den *= B ** -sh
+        yield Case("r.to_float", [dec(B), rng.choice(modes), hx(signed(rng, num)), hx(den), dec(prec)])
+    yield Case("r.to_float", [dec(10), "HalfAway", hx(6248), "5", dec(2)])
+    yield Case("r.to_float", [dec(10), "HalfAway", "0", "1", dec(3)])
+
+
+# ------------------------------------------------------------------ floats of any base
+
+def gen_float(rng, tier):
+    quick = tier == "quick"
+    modes = ["Zero", "Away", "Up", "Down", "HalfEven", "HalfAway"]
+    # binary floats: exact mirror of encode's domain, long significands (first rounding to 24/53 bits)
+    for _ in range(300 if quick else 60000):
+        ty = rng.choice(["f32", "f64"])
+        f = FMT[ty]; p = f["MB"] + 1; qmin = _qmin(f); emax1 = 2 ** (f["EB"] - 1)
+        L = rng.choice([1, 2, p - 1, p, p + 1, p + 2, p + 3, 2 * p, 2 * p + 1, 100, 200])
+        k = rng.choice([0, 1, 2, 3, max(L - p, 0), max(L - p, 0) + 1, max(L - p, 0) + 2])
+        k = min(k, L)
+        ms = cut_mantissas(rng, L, k, per=1)
+        s = rng.choice(ms)
+        t = rng.choice([qmin - 2, qmin - 1, qmin, qmin + 1, qmin + 2, qmin + 5, qmin + p - 1, qmin + p, qmin + p + 1, 0, 1, emax1 - 1, emax1, emax1 + 1,
+                        rng.randrange(qmin - 3, qmin + p + 3)])
+        e = t - L
+        s = signed(rng, s)
+        if ty == "f32":
+            yield Case("f.to_f32", [dec(2), rng.choice(modes), hx(s), dec(e)])
+            yield Case("fr.to_f32", [dec(2), hx(s), dec(e)])
+            yield Case("f.tryto_f32", [hx(s), dec(e)])
+        else:
+            yield Case("f.to_f64", [dec(2), rng.choice(["HalfAway", "Zero"]), hx(s), dec(e)])
+            yield Case("f.tryto_f64", [hx(s), dec(e)])
+    # decimals d * 10^e, |e| <= 400 (and bases 16, 3)
+    for _ in range(300 if quick else 40000):
+        B = rng.choice([10, 10, 10, 16, 3])
+        nd = rng.choice([1, 1, 2, 4, 8, 15, 16, 17, 18, 20, 40])
+        s = rng.randrange(B ** (nd - 1), B ** nd) if nd > 1 else rng.randrange(1, B)
+        if s % B == 0:
+            s += 1
+        e = rng.choice([0, 0, -1, 1, -nd, -nd + 1, -7, 7, 22, 23, -22, 30, 38, 39, -45, -46, 308, -308, -323, -324, -400, 400,
+                        rng.randrange(-400, 401), rng.randrange(-30, 31)])
+        if B != 10:
+            e = max(-60, min(60, e))
+        s = signed(rng, s)
+        yield Case("f.to_f64", [dec(B), "HalfAway", hx(s), dec(e)])
+        if rng.random() < 0.5:
+            yield Case("f.to_f32", [dec(B), rng.choice(modes), hx(s), dec(e)])
+        if rng.random() < 0.3:
+            yield Case("fr.to_f32", [dec(B), hx(s), dec(e)])
+    for s, e in [(4899, -7), (1, 30), (1323, -7), (1, -1), (3, 0), (123, -2), (5, -324), (25, -325), (17976931348623157, 292), (17976931348623159, 292)]:
+        yield Case("f.to_f64", [dec(10), "HalfAway", hx(s), dec(e)])
+        yield Case("f.to_f32", [dec(10), "HalfEven", hx(s), dec(e)])
+    # to_int family and exact-or-refused conversions
+    for _ in range(300 if quick else 60000):
+        B = rng.choice([2, 10, 10, 16, 3])
+        nd = rng.choice([1, 2, 3, 5, 9, 20, 40])
+        s = rng.randrange(1, B ** nd)
+        if s % B == 0:
+            s += 1
+        # fractional digits: none, some, all, more than the significand has (value < 1)
+        e = rng.choice([0, 1, 5, -1, -2, -nd + 1, -nd, -nd - 1, -nd - 5, rng.randrange(-nd - 3, 6)])
+        if rng.random() < 0.35 and e < 0:
+            # exact halves / near halves in the fraction
+            fr = B ** (-e)
+            half = fr // 2
+            s = (s // fr) * fr + rng.choice([half, half + 1, max(half - 1, 0), 0, 1, fr - 1])
+            if s == 0:
+                s = 1
+        s = signed(rng, s)
+        yield Case("f.to_int", [dec(B), rng.choice(modes), hx(s), dec(e)])
+        if rng.random() < 0.3:
+            yield Case("fr.to_int", [dec(B), hx(s), dec(e)])
+        if rng.random() < 0.5:
+            yield Case("f.try.ibig", [dec(B), hx(s), dec(e)])
+            yield Case("f.try.ubig", [dec(B), hx(s), dec(e)])
+            yield Case("f.to.rbig", [dec(B), hx(s), dec(e)])
+    for ty in list(UNSIGNED) + list(SIGNED):
+        lo, hi = prim_range(ty)
+        for B in (2, 10):
+            for v in [0, 1, hi, hi + 1, lo, lo - 1, hi >> 1, 2 * hi + 2, 4 * hi + 4]:
+                yield Case("f.try", [ty, dec(B), hx(v), dec(0)])
+            # non-integers clearly inside / clearly outside the range
+            yield Case("f.try", [ty, dec(B), hx(B + 1), dec(-1)])
+            yield Case("f.try", [ty, dec(B), hx(-(B + 1)), dec(-1)])
+            yield Case("f.try", [ty, dec(B), hx((hi + 1) * 8 * B + 1), dec(-1)])
+            yield Case("f.try", [ty, dec(B), hx(3), dec(2)])
+    for ty in ("f32", "f64"):
+        for b in float_patterns(rng, ty, 60 if quick else 20000):
+            yield Case("f.from_" + ty, ["p:%s:%x" % (ty, b)])
+    for v in [0, 1, -1, 1000, -1000, 1 << 70, 10 ** 30, -(16 ** 20), 3 ** 50]:
+        for B in (2, 10, 16, 3):
+            yield Case("f.from.ibig", [dec(B), hx(v)])
+    for num, den in [(1, 4), (1, 3), (-7, 8), (22, 7), (5, 1), (3, 1000), (1, 1 << 70)]:
+        for B in (2, 10):
+            yield Case("f.from.rbig", [dec(B), hx(num), hx(den)])
+    for which in ["to_f32", "to_f64", "repr.to_f64", "to_int", "try.ibig", "try.ubig", "try.u8", "try.i64", "to.rbig", "tryto_f32", "tryto_f64"]:
+        for sg in "+-":
+            yield Case("f.inf", [which, sg])
+
+
+def ratio_is_fixed():
+    try:
+        src = open("/repo/rational/src/convert.rs").read()
+    except OSError:
+        return False
+    return "Inexact(man + 1, sign)" not in src
 
 
 def generate(rng, tier):
@@ -301,17 +494,90 @@ def generate(rng, tier):
     yield from gen_decode(rng, tier)
     yield from gen_prim(rng, tier)
     yield from gen_int_float(rng, tier, fixed)
+    yield from gen_ratio(rng, tier, not ratio_is_fixed())
+    yield from gen_float(rng, tier)
 
 
 def nontrivial(c):
-    return True
+    # trivial: conversions of 0/±1 and bare powers of two with nothing to round
+    vals = [a.split(":")[-1].lstrip("-") for a in c.args if re.fullmatch(r"(p:\w+:)?-?[0-9a-f]+", a)]
+    return any(len(v) > 1 or v not in ("0", "1") for v in vals)
 
 
-REFINED = []
-FRONTIER = []
-RULE = ""
-EXPLANATION = ""
-ASSUMPTIONS = []
-LEVEL_TEXT = ""
-LEVEL_NOTE = ""
-TECHNIQUE = ""
+READY = True
+JOBS = 12
+
+THEOREMS = ["Dashu.Props.C06." + n for n in [
+    "spec_rounding_is_nearest", "spec_rounding_ties_to_even", "decode_reads_fields_f32", "decode_reads_fields_f64",
+    "encode_correct_f32", "encode_correct_f64", "encode_correct_generic",
+    "encode_decode_roundtrip_f32", "encode_decode_roundtrip_f64",
+    "encode_asis_f32_counterexample_flag", "encode_asis_f32_counterexample_value", "encode_asis_f64_counterexample_flag",
+    "encode_asis_f64_counterexample_value", "encode_asis_f32_counterexample_subnormal", "encode_asis_f64_counterexample_subnormal",
+    "encode_asis_f32_counterexample_underflow", "encode_asis_f32_counterexample_shift_panic",
+    "encode_asis_f64_counterexample_shift_panic", "encode_asis_counterexample_exponent_overflow",
+    "sticky_bit_lemma", "ubig_to_f64_correct", "ubig_to_f32_correct", "ibig_to_float_sign", "to_f64_small_asis_counterexample",
+    "ubig_try_to_f32_sound", "ubig_try_to_f64_sound", "ubig_try_from_float_exact_or_refused", "ibig_try_from_float_exact_or_refused", "int_from_float_asis_counterexample",
+    "try_to_unsigned_in_range_iff", "try_from_sign_magnitude_in_range_iff", "to_sign_magnitude_exact", "from_unsigned_roundtrip",
+    "rbig_to_f32_correct", "rbig_to_f64_correct", "rbig_to_f32_asis_counterexample", "rbig_to_f64_asis_counterexample"]]
+EXTRA_AXIOMS = {}      # bv_decide was NOT needed: encode_correct is an arithmetic proof (propext, Classical.choice, Quot.sound only)
+
+REFINED = [
+    "base/src/bit.rs <f32|f64 as FloatEncoding>::encode (every branch: overflow, underflow, subnormal with/without shift-out, normal; "
+    "masks and shifts literal) == IEEE round-to-nearest-even + error sign, for all mantissas and ALL exponents (one generic proof over the "
+    "block's constants, instantiated for f32 and f64)",
+    "base/src/bit.rs <f32|f64>::decode (field extraction, NaN/inf refusal) and encode(decode(x)) == Exact(x)",
+    "integer/src/convert.rs to_f64_small / to_f32_small (cast + comparison with the cast back)",
+    "integer/src/convert.rs to_f32_nontrivial / to_f64_nontrivial (top bits | sticky -> encode) via the sticky-bit lemma, any length",
+    "integer/src/convert.rs TryFrom<f32|f64> for UBig/IBig (decode, sign test, shift, fraction test)",
+    "integer/src/convert.rs TryFrom<UBig|IBig> for f32/f64 (bit-length rule): every success is exact (refusals are conservative: 2^25 -> "
+    "LossOfPrecision for f32)",
+    "rational/src/convert.rs Repr::to_f32/to_f64 (shift to prec+2 bits, long division, sticky, encode) == IEEE rounding of the rational, for "
+    "every numerator/denominator (sticky lemma for non-dyadic quotients)",
+    "integer/src/convert.rs try_to_unsigned / unsigned_from_words (all word sizes that are multiples of 8), "
+    "integer/src/primitive.rs to_sign_magnitude / try_from_sign_magnitude (all widths), from_unsigned round trip",
+]
+FRONTIER = [
+    "rational/src/convert.rs to_f32_fast/to_f64_fast: mirrored; only the 2-ulp bound is checked per case",
+    "TryFrom<RBig> for f32/f64/ints/UBig/IBig, RBig::try_from(f32/f64), RBig::to_int: spec only (exact rational arithmetic in the driver)",
+    "RBig::to_float, FBig::to_f32/to_f64/to_int, Repr::to_f32/to_int, TryFrom<FBig> for ints/IBig/UBig/RBig/f32/f64, FBig::try_from(f32/f64), "
+    "From<RBig> for FBig: spec only (single rounding of the exact rational value under the documented mode, flags derived from the true error)",
+]
+RULE = ("Structured, built from the branch conditions of the code. encode/decode: ALL exponents (qmin-N-6 .. emax+6, and the i16 extremes) x "
+        "mantissa classes {1, 3, 2^k, 2^k-1, 2^p±1, i32/i64 MIN/MAX} plus, for every mantissa length L and every cut position k (normal cut L-p, "
+        "every subnormal cut 0..L+2), kept part {10..0, 1..1, even, odd, random} x discarded part {0, 1, half-1, half, half+1, quarter, "
+        "half+quarter, all ones, random}; every threshold top_bit ±2. Primitives: every width/sign x {0, ±1, MIN, MAX, MAX+1, MIN-1, word, dword "
+        "and heap boundaries, random}. Integers->floats: 2^k, 2^k±1, 2^k + 2^(k-p){,±1}, 2^k + 3·2^(k-p)..., every bit length 1..1100 with the "
+        "same cut patterns at p = 24 and 53, overflow thresholds 2^128-2^103.., 2^1024-2^970.., u128::MAX. Floats->integers: all exponents around "
+        "the integer/fraction boundary, NaN/±inf/±0/subnormals. Rationals: quotients with p-1..p+3 bits x the cut patterns x denominators {1, "
+        "small odd, 2^k, 2^64±1, 10^25, random} at exponents in the normal range, the subnormal band, below it and at the overflow edge; "
+        "to_float over bases {2,3,10,16} x 6 modes x precisions with tie/near-tie tails. Floats of any base: binary significands of 1..200 bits "
+        "at every regime, decimals d·10^e with |e| <= 400 (1..40 digits), the to_int family with exact halves/near halves. All call forms "
+        "(owned/ref, RBig/Relaxed, FBig/Repr) are evaluated and must agree. Non-trivial := some operand is neither 0 nor ±1; distinct := distinct (op,args).")
+EXPLANATION = ("Centre: a machine-checked proof that f32/f64::encode of the current tree equals the IEEE-754 round-to-nearest-even specification "
+               "(overflow, gradual underflow, ±0) with the true error sign for EVERY (mantissa, exponent) — the statement that exposed two mask "
+               "errors, a wrong underflow bound and three panics in the pinned code (kernel-checked counterexamples kept). On top: decode and the "
+               "round trip, UBig/IBig::to_f32/to_f64 for every length via a proved sticky-bit lemma, exact-or-refused float->integer and "
+               "primitive<->big conversions for every width. Rational and any-base float conversions are decided by the correspondence against an "
+               "exact-arithmetic specification; their remaining (design-level) defects are listed as known findings with exact input predicates.")
+ASSUMPTIONS = [
+    "Rust `as` casts int->float round to nearest-even (overflow to inf) and float->int saturate (Rust reference); leading_zeros/trailing_zeros "
+    "return the documented counts",
+    "the harness is a debug build (overflow checks and debug_assert! on): arithmetic overflow and failed debug assertions are observed as panics",
+    "usize/isize are 64 bits (the harness checks the word size of the build)",
+]
+LEVEL_TEXT = ("Lean 4 theorems (no bounds on mantissa, exponent, integer length or word size): `encode` == IEEE RNE + error sign for all "
+              "inputs (f32, f64 and any format whose constants satisfy 13 checked relations); decode/round trip; UBig/IBig::to_f32/to_f64 "
+              "correctly rounded for every canonical magnitude (sticky-bit lemma); RBig::to_f32/to_f64 correctly rounded for every rational; float->UBig/IBig exact or refused; primitive<->big succeed "
+              "iff in range and return the value. The hand-written model is tied to /repo on every run by differential execution of model, "
+              "specification and real code over generated cases at every branch threshold, all call forms. Rational and non-binary float "
+              "conversions: specification (exact rational arithmetic, single rounding) vs real code by correspondence; RBig::to_f32/to_f64 "
+              "are refined as well (correctly rounded for every rational).")
+LEVEL_NOTE = ("No bv_decide: all theorems depend only on propext/Classical.choice/Quot.sound (counterexamples: `decide +kernel`, propext only). "
+              "Trusted: Lean kernel; the correspondence harness and generators (sampling) for model<->code; Rust cast/intrinsic semantics as "
+              "listed in assumptions. The `*AsIs` models describe the pinned pre-fix code and occur only in counterexample theorems; the `.asis` "
+              "ops that tie them to the code are generated only while the corresponding defect text is still present in /repo. Known findings "
+              "(design-level, unrepaired): RBig::to_float double rounding; FBig->f32/f64 flags, subnormal double rounding and non-binary-base "
+              "assertions; From<RBig> for FBig lossy. Observation (not a violation of C06 as worded): to_f32_fast/to_f64_fast can be 2 units off "
+              "(doc says 1); TryFrom<UBig> for f32 refuses representable integers above 2^25 (conservative); to_f32_small has the u64::MAX "
+              "saturation issue on 32-bit-word builds (not reachable with 64-bit words).")
+TECHNIQUE = "Lean 4 refinement proofs (arithmetic over Nat/Int, generic in the format constants) + kernel-decided counterexamples + differential correspondence model/spec vs real code"
